@@ -20,7 +20,12 @@ Definition lines_iter_nth (h : hkind) (items : list dref) (e : res unit) : list 
                                                   | Some t => "VAL " ++ sDref h t
                                                   | None => sRes (fun _ => "none") e
                                                   end)) (nth_ks (len items))
-   ++ [line "tags_count" (sRes (fun _ => sN (len items)) e)])%list.
+   ++ [line "tags_count" (sRes (fun _ => sN (len items)) e);
+       (* next() once, then clone().count(): the clone continues behind the first tag *)
+       line "tags_clone" (match items with
+                          | [] => sRes (fun _ => "first=false rest=0") e
+                          | _ => sRes (fun _ => ("first=true rest=" ++ sN (len items - 1))%string) e
+                          end)])%list.
 
 (* the generic walk of a loaded boot information *)
 Definition lines_walk (p : profile) (m : mem) (r : dref) : list string :=
